@@ -5,6 +5,7 @@ package pure
 import (
 	"encoding/json"
 	"fmt"
+	"math"
 	"strings"
 	"sync"
 	"testing"
@@ -104,6 +105,29 @@ func runC08x(c c08Case) *vstat.Failure {
 	g2, _ := m.GetDatum(t2...)
 	if datum.GetInt(g1) != 1 || datum.GetInt(g2) != 2 {
 		return vstat.Failf(c08Sig(t1, t2), "values read back %d,%d want 1,2 for %q %q", datum.GetInt(g1), datum.GetInt(g2), t1, t2)
+	}
+	// the same for a histogram: what is observed under one tuple is not seen
+	// under the other (count, sum and every bucket)
+	h := metrics.NewMetric("h", "p", metrics.Histogram, metrics.Buckets, c08Keys(len(t1))...)
+	h.Buckets = []datum.Range{{Min: 0, Max: 1}, {Min: 1, Max: 2}, {Min: 2, Max: math.Inf(1)}}
+	h1, err := h.GetDatum(t1...)
+	if err != nil {
+		return vstat.Failf("getdatum-error", "histogram GetDatum(%q): %v", t1, err)
+	}
+	h2, err := h.GetDatum(t2...)
+	if err != nil {
+		return vstat.Failf("getdatum-error", "histogram GetDatum(%q): %v", t2, err)
+	}
+	datum.Observe(h1, 0.5, c08ts)
+	datum.Observe(h1, 1.5, c08ts)
+	b2 := datum.GetBuckets(h2)
+	for r, n := range b2.GetBuckets() {
+		if n != 0 {
+			return vstat.Failf("histogram-tuples-share-buckets", "observations made under %q show in bucket %v of %q (count %d)", t1, r, t2, n)
+		}
+	}
+	if b2.GetCount() != 0 || b2.GetSum() != 0 {
+		return vstat.Failf("histogram-tuples-share-buckets", "observations made under %q show under %q: count %d sum %v", t1, t2, b2.GetCount(), b2.GetSum())
 	}
 	// the metric is replaced in a store by a new version of itself (what a
 	// program reload does): the two tuples must still name two data, each with
